@@ -6,7 +6,7 @@
 use std::cell::{Cell, RefCell};
 use std::time::Instant;
 
-use maybenot::TriggerAction;
+use maybenot::{MachineId, TriggerAction};
 
 use crate::SimEvent;
 
@@ -22,7 +22,28 @@ pub struct LoggedAction {
     pub action: TriggerAction,
 }
 
+/// What the simulator fired when a timer it keeps expired.
+#[derive(Debug, Clone, PartialEq)]
+pub enum Fired {
+    /// The scheduled action of a machine (its action timer expired).
+    Action(TriggerAction),
+    /// The internal timer of a machine.
+    InternalTimer { machine: MachineId },
+}
+
+/// A timer expiry carried out by the simulator.
+#[derive(Debug, Clone, PartialEq)]
+pub struct LoggedFire {
+    /// The number of events the simulator had processed when it fired.
+    pub events_seen: usize,
+    pub client: bool,
+    /// The expiry time the simulator acted on.
+    pub time: Instant,
+    pub fired: Fired,
+}
+
 thread_local! {
+    static FIRE_LOG: RefCell<Vec<LoggedFire>> = const { RefCell::new(Vec::new()) };
     static ACTION_LOG: RefCell<Vec<LoggedAction>> = const { RefCell::new(Vec::new()) };
     static EVENTS_SEEN: Cell<usize> = const { Cell::new(0) };
 }
@@ -41,6 +62,24 @@ pub(crate) fn log_action(client: bool, time: Instant, action: &TriggerAction) {
             action: action.clone(),
         })
     });
+}
+
+pub(crate) fn log_fire(client: bool, time: Instant, fired: Fired) {
+    let events_seen = EVENTS_SEEN.with(|c| c.get());
+    FIRE_LOG.with(|l| {
+        l.borrow_mut().push(LoggedFire {
+            events_seen,
+            client,
+            time,
+            fired,
+        })
+    });
+}
+
+/// Take (and clear) the log of timer expiries carried out on this thread.
+/// Call it before [`take_action_log`], which restarts the event count.
+pub fn take_fire_log() -> Vec<LoggedFire> {
+    FIRE_LOG.with(|l| std::mem::take(&mut *l.borrow_mut()))
 }
 
 /// Take (and clear) the log of actions received by the simulator on this
